@@ -375,9 +375,10 @@ class Runner:
         try:
             res = d.batch(instrument(history), s=name, timeout=180)
             d.call("end_session", s=name)
-        except (core.DriverDied, core.DriverTimeout) as e:
+        except (core.DriverDied, core.DriverTimeout, core.Inconclusive) as e:
             self.last_failure = str(e)
-            self.hd.close()
+            if self.hd is not None:
+                self.hd.close()
             self.hd = None
             return None
         return regroup(history, res)
@@ -481,6 +482,7 @@ def judge(history, rows, runner, st=None, pats=None):
     dirty = False
     effective_switch = False        # a preference or expression actually changed earlier in this session
     judged = 0
+    seen_targets = set()
 
     def count(k, n=1):
         if st is not None:
@@ -568,6 +570,9 @@ def judge(history, rows, runner, st=None, pats=None):
                 count("getters_compared_" + kind)
                 if effective_switch:
                     count("getters_compared_after_a_switch")
+                if (kind, pitems, cur_x) in seen_targets:
+                    count("getters_compared_again_for_the_same_target_in_one_session")      # idempotence / away-and-back
+                seen_targets.add((kind, pitems, cur_x))
                 judged += 1
                 if got != ref[kind]:
                     if got[0] == "panic" or ref[kind][0] == "panic":
@@ -789,7 +794,7 @@ def history_shard(spec):
             st.violations.append(v)
             seen_pre[pre] = "known" if core.match_finding(v, known_open) is not None else "new"
         st.count("distinct_targets_in_shard", len(runner.cache))
-        for (pitems, x) in list(runner.cache)[:4000]:
+        for (pitems, x) in list(runner.cache)[:60000]:
             st.add("target_hashes", core.h16(json.dumps([pitems, x])))
     finally:
         runner.close()
@@ -859,6 +864,22 @@ def replay(witness):
         runner.close()
 
 
+def rules_fingerprint():
+    """size and modification time of every file below Rules/: the histories and their fresh-session references are only comparable when
+    the rule files stayed the same for the whole run"""
+    out = []
+    for root, dirs, files in os.walk(core.RULES):
+        dirs.sort()
+        for f in sorted(files):
+            p = os.path.join(root, f)
+            try:
+                st = os.stat(p)
+                out.append((os.path.relpath(p, core.RULES), st.st_size, st.st_mtime_ns))
+            except OSError:
+                out.append((os.path.relpath(p, core.RULES), -1, -1))
+    return out
+
+
 def _dbg(what, t0):
     if os.environ.get("C10_DEBUG"):
         import sys
@@ -873,13 +894,14 @@ def run(tier, seed):
         raise core.Inconclusive(build_errors["native"])
     _dbg("builds done", t0)
     use_auto = use_auto_language()
+    rules_before = rules_fingerprint()
     quick = tier == "quick"
     budget = int(os.environ.get("C10_BUDGET", "0")) or (48 if quick else 1300)
     specs = []
     # the parallel schedules go first so that the slow ThreadSanitizer run starts at once
     if use_tsan and "tsan" not in build_errors:
-        specs.append({"kind": "parallel", "flavour": "tsan", "seed": core.sub_seed(seed, PROP, "tsan"), "rounds": 1 if quick else 3,
-                      "threads": 8 if quick else 16, "ops": 36 if quick else 400, "time_budget": budget * (1.3 if quick else 0.6), "timeout": 240 if quick else 1500})
+        specs.append({"kind": "parallel", "flavour": "tsan", "seed": core.sub_seed(seed, PROP, "tsan"), "rounds": 2 if quick else 3,
+                      "threads": 8 if quick else 16, "ops": 60 if quick else 400, "time_budget": budget * (0.4 if quick else 0.6), "timeout": 240 if quick else 1500})
     specs.append({"kind": "parallel", "flavour": "native", "seed": core.sub_seed(seed, PROP, "par"), "rounds": 3 if quick else 30,
                   "threads": 16, "ops": 90 if quick else 240, "time_budget": budget * 0.8, "timeout": 240})
     nsh = max(2, core.NPROC - len(specs))
@@ -888,6 +910,12 @@ def run(tier, seed):
                       "max_histories": 400 if quick else 12000})
     results = core.run_shards(shard, specs)
     _dbg("shards done", t0)
+    rules_after = rules_fingerprint()
+    if rules_after != rules_before:
+        changed = sorted({a[0] for a in set(rules_before) ^ set(rules_after)})
+        c10_par.cleanup()
+        raise core.Inconclusive("files below %s changed while the check was running (%s%s): sessions that loaded them before and after the change "
+                                "cannot be compared; run again" % (core.RULES, ", ".join(changed[:5]), " ..." if len(changed) > 5 else ""))
     stats, errors = core.Stats.merge(results)
     for fl, e in build_errors.items():
         errors.append("driver build failed for flavour %s: %s" % (fl, e))
